@@ -98,8 +98,8 @@ vector<GlobalGraph::Edge> GlobalGraph::unlink(Graph::NodeId nodeA, Graph::NodeId
   // unlinking in the structure
   vector<GlobalGraph::Edge> deletedEdges; // what edges ID are affected by this unlinking
   deletedEdges.push_back(unlinkInNodeStructure_(nodeA, nodeB));
-  if (!directed_)
-    unlinkInNodeStructure_(nodeB, nodeA); // link() recorded both directions
+  if (!directed_ && nodeA != nodeB)
+    unlinkInNodeStructure_(nodeB, nodeA); // link() recorded both directions (a self-relation is recorded once)
 
   for (auto& currEdgeToDelete : deletedEdges)
   {
